@@ -6,14 +6,16 @@ open Conv
 let upper m = List.map (fun ch -> let x = int_of_n ch in if x >= 97 && x <= 122 then n_of_int (x - 32) else ch) m
 let sort_assoc l = List.sort (fun (a, _) (b, _) -> if str_eqb a b then 0 else if str_leb a b then -1 else 1) l
 
-type bcase = { defs : Sexp.t; idx : int; style : string; vals : (n list * n list) list; extra : (n list * n list) list }
+type bcase = { defs : Sexp.t; idx : int; style : string; vals : (n list * n list) list; extra : (n list * n list) list; opts : Sexp.t }
 let parse_build = function
-  | L [A "build"; defs; i; A style; L vals; L extra] ->
+  | L (A "build" :: defs :: i :: A style :: L vals :: L extra :: rest) ->
     let kv = List.map (function L [k; v] -> (str k, str v) | _ -> failwith "c15: bad pair") in
-    { defs; idx = int i; style; vals = kv vals; extra = kv extra }
+    (* optional 7th element: the routes are registered inside Group(prefix) *)
+    let opts = match rest with [g] -> L [L [A "group"; g]] | _ -> L [] in
+    { defs; idx = int i; style; vals = kv vals; extra = kv extra; opts }
   | x -> failwith ("c15: bad case " ^ to_string x)
 
-let rtcase_of b = Rt.parse_case (L [A "rt"; L []; b.defs; L []])
+let rtcase_of b = Rt.parse_case (L [A "rt"; b.opts; b.defs; L []])
 
 let model_build b =
   let c = rtcase_of b in
